@@ -31,12 +31,12 @@ Theorem roundtrip_change_refuted :
 Proof. exact roundtrip_change_refuted_prefix. Qed.
 Print Assumptions roundtrip_change_refuted.
 
-Theorem scanner_and_decoder_disagreed_before_fix :
+Theorem scanner_and_decoder_disagreed_before_fix_refuted :
   encode1 prefix_schema "OSM" w_osm = Ok w_osm_xml /\
   fst (scan_el prefix_schema w_osm_xml) = [("Bounds", w_bounds)] /\
   decode prefix_schema "OSM" w_osm_xml = Ok (zero prefix_schema FUEL (TNamed "OSM")).
 Proof. exact scanner_decoder_disagreed_prefix. Qed.
-Print Assumptions scanner_and_decoder_disagreed_before_fix.
+Print Assumptions scanner_and_decoder_disagreed_before_fix_refuted.
 
 (* --- round trip of every object type: xml.Marshal then xml.Unmarshal gives the value back,
        and the document element carries the OSM XML name --- *)
@@ -59,6 +59,21 @@ Theorem xml_roundtrip_as_field : forall ty nm omit v,
              /\ absorb gen_schema FUEL ty (zero gen_schema FUEL ty) es = Ok v.
 Proof. exact roundtrip_as_field. Qed.
 Print Assumptions xml_roundtrip_as_field.
+
+(* --- the containers with hand-written MarshalXML: an <osm> document and an osmChange with
+       create/modify/delete blocks, each with its own top-level bounds (the case the fixed defect
+       broke), any lists of nodes, ways, relations, changesets, notes, users --- *)
+Theorem xml_roundtrip_OSM : forall v,
+  wfb gen_schema "OSM" v = true ->
+  exists e, encode1 gen_schema "OSM" v = Ok e /\ decode gen_schema "OSM" e = Ok v /\ xname e = "osm".
+Proof. exact roundtrip_OSM. Qed.
+Print Assumptions xml_roundtrip_OSM.
+
+Theorem xml_roundtrip_Change : forall v,
+  wfb gen_schema "Change" v = true ->
+  exists e, encode1 gen_schema "Change" v = Ok e /\ decode gen_schema "Change" e = Ok v /\ xname e = "osmChange".
+Proof. exact roundtrip_Change. Qed.
+Print Assumptions xml_roundtrip_Change.
 
 (* --- the generic theorem behind both: any schema, any type passing the static check tyok,
        any well-formed value, any fuel above its depth --- *)
